@@ -262,27 +262,34 @@ theorem C01_refines_annot (a : Arr) (k : String) (c : List Tok) (coord : List (L
 
 theorem C01_refines_array (xs : List AtomV) : SarrayOf xs = (arrayOf xs).map abs := SarrayOf_ref xs
 
-/-- **Refinement of one step of the register machine**: for every covered operation (`Covered`: all but
-`concatenate` and the `==` observation), every well-formed state, the abstraction of the next state and of
-the output equals the reference step on the abstraction. -/
-theorem C01_refines (st : State) (op : Op) (hst : WFState st) (hc : Covered op) :
-    Sstep (absState st) op = (absState (step st op).1, absOut (step st op).2) :=
-  step_refines st op hst hc
+/-- `concatenate(list)`: all atoms of all parts one after the other, restricted to the categories every part
+has; bonds shifted by the number of atoms before their part; the first box. -/
+theorem C01_refines_concat (xs : List Arr) (hw : ∀ a ∈ xs, WF a) :
+    Sconcatenate (xs.map abs) = (concatenate xs).map abs := Sconcatenate_ref xs hw
 
-/-- … and for every history of covered operations from the empty register file. -/
-theorem C01_refines_history (ops : List Op) (hc : ∀ op ∈ ops, Covered op) :
-    Srun (absState init) ops = absState (run init ops) := by
-  have key : ∀ (ops : List Op) (st : State), WFState st → (∀ op ∈ ops, Covered op) →
-      Srun (absState st) ops = absState (run st ops) := by
+/-- the `==` observation -/
+theorem C01_refines_eq (a b : Arr) (hwa : WF a) (hwb : WF b) : SequalArr (abs a) (abs b) = equalArr a b :=
+  SequalArr_ref a b hwa hwb
+
+/-- **Refinement of one step of the register machine**: for **every** operation and every well-formed state,
+the abstraction of the next state and of the output equals the reference step on the abstraction. -/
+theorem C01_refines (st : State) (op : Op) (hst : WFState st) :
+    Sstep (absState st) op = (absState (step st op).1, absOut (step st op).2) :=
+  step_refines st op hst trivial
+
+/-- … and for every history from the empty register file: the container state equals the list-of-atoms
+reference state after the same operations. -/
+theorem C01_refines_history (ops : List Op) : Srun (absState init) ops = absState (run init ops) := by
+  have key : ∀ (ops : List Op) (st : State), WFState st → Srun (absState st) ops = absState (run st ops) := by
     intro ops
     induction ops with
-    | nil => intro st _ _; rfl
+    | nil => intro st _; rfl
     | cons op r ih =>
-      intro st hst hc
+      intro st hst
       simp only [Srun, run, List.foldl_cons]
-      rw [step_refines st op hst (hc op (by simp))]
-      exact ih _ (step_wf st op hst) (fun o ho => hc o (by simp [ho]))
-  exact key ops init C01_wf_init hc
+      rw [step_refines st op hst trivial]
+      exact ih _ (step_wf st op hst)
+  exact key ops init C01_wf_init
 
 /-- **Defect (bonds.pyx, cannot be rebuilt).**  A size-0 boolean ndarray is accepted by numpy on any axis
 (`resolve` returns the empty selection), and on a container with at least one bond the code then reads the
@@ -294,7 +301,6 @@ theorem C01_empty_mask_bonds_defect :
    ⟨by decide, by decide, by decide, fun b hb => by cases hb; rfl,
     fun b hb => by cases hb; exact ⟨rfl, by decide⟩⟩, by decide, by decide, by decide⟩
 
-example : Covered (.get 1 0 (.slice none none (some (-1)))) := trivial
 example : (abs exStack).atoms = [⟨[("res_id", 21)], [101, 104]⟩, ⟨[("res_id", 22)], [102, 105]⟩, ⟨[("res_id", 23)], [103, 106]⟩] := by
   decide
 
